@@ -312,3 +312,102 @@ def extract_replacements(line, spans, out):
     if out[pos_o:] != line[pos_i:]:
         return None
     return res
+
+
+# Ordinary configuration lines WITHOUT secrets (Cisco IOS / NX-OS / ASA / Junos / Arista flavours).
+# With password anonymization on they must come out unchanged (up to inner white space), they must
+# never make a stage fail, and their addresses must be handled by the IP stage only.
+CORPUS = [
+    "interface GigabitEthernet0/1",
+    " description uplink to core-sw1 port 12",
+    " ip address 10.20.30.40 255.255.255.0",
+    " ip address 192.0.2.17 255.255.255.252 secondary",
+    " ipv6 address 2001:db8:12:34::56/64",
+    " no shutdown",
+    " switchport trunk allowed vlan 10,20,30-35",
+    "router bgp 65001",
+    " neighbor 198.51.100.7 remote-as 64512",
+    " neighbor 198.51.100.7 description transit peer",
+    " neighbor 2001:db8::7 update-source Loopback0",
+    "ip route 0.0.0.0 0.0.0.0 203.0.113.1",
+    "ip route 172.16.5.0 255.255.255.0 10.1.1.2 name backup",
+    "access-list 101 permit tcp 10.0.0.0 0.255.255.255 host 192.0.2.10 eq 443",
+    "ip prefix-list PL seq 5 permit 10.0.0.0/8 le 24",
+    "logging host 10.1.1.1",
+    "logging 10.9.8.7",
+    "ntp server 10.2.2.2 prefer",
+    "snmp-server location Building 7, rack 12",
+    "snmp-server contact noc@example.com",
+    "snmp-server engineID remote 10.1.1.1 udp-port 162 800000090300AABBCCDD",
+    "snmp-server engineID local 800000090300001122334455",
+    "snmp-server enable traps bgp",
+    "ip name-server 10.3.3.3 10.4.4.4",
+    "ip domain-name example.com",
+    "hostname edge-router-01",
+    "aaa new-model",
+    "aaa authentication login default group tacacs+ local",
+    "line vty 0 4",
+    " transport input ssh",
+    " exec-timeout 15 0",
+    "banner motd ^C Authorized access only ^C",
+    "spanning-tree mode rapid-pvst",
+    "vlan 120",
+    " name servers-blue",
+    "ip access-list extended MGMT",
+    " permit ip 10.10.0.0 0.0.255.255 any",
+    " deny ip any any log",
+    "route-map RM-OUT permit 10",
+    " match ip address prefix-list PL",
+    " set local-preference 200",
+    "ip dhcp pool LAN",
+    " network 192.168.10.0 255.255.255.0",
+    " default-router 192.168.10.1",
+    "system {",
+    "    host-name mx480-core;",
+    "    domain-name example.net;",
+    "    name-server {",
+    "        10.5.5.5;",
+    "    }",
+    "    ntp {",
+    "        server 10.6.6.6;",
+    "    }",
+    "    syslog {",
+    "        host 10.7.7.7 {",
+    "            any notice;",
+    "        }",
+    "    }",
+    "}",
+    "interfaces {",
+    "    ge-0/0/0 {",
+    "        unit 0 {",
+    "            family inet {",
+    "                address 10.8.8.1/30;",
+    "            }",
+    "        }",
+    "    }",
+    "snmp {",
+    "    location \"Lab 3\";",
+    "    contact \"noc\";",
+    "    community public {",
+    "        authorization read-only;",
+    "    trap-group managers {",
+    "        targets {",
+    "            10.9.9.9;",
+    "policy-options {",
+    "    prefix-list MGMT {",
+    "        10.0.0.0/8;",
+    "    community CUST members 65001:100;",
+    "set protocols bgp group ebgp neighbor 192.0.2.1 peer-as 64512",
+    "set interfaces ge-0/0/1 unit 0 family inet address 10.11.12.1/24",
+    "set routing-options static route 0.0.0.0/0 next-hop 10.11.12.254",
+    "set system services ssh root-login deny",
+    "mtu 9216",
+    "ip ssh version 2",
+    "service timestamps log datetime msec",
+    "clock timezone UTC 0",
+    "vrf definition BLUE",
+    " rd 65001:100",
+    " route-target export 65001:100",
+    "!",
+    "end",
+]
